@@ -9,6 +9,12 @@ def newStage (w w' : World) : List Msg := w'.stage.drop w.stage.length
 
 def healthy (env : Env) (d : Nat) : Prop := ∀ k, env.destFails d k = none
 
+/-- the ghost flag computed by `Destinations.add` is exact -/
+theorem hasDup_eq_false_iff (l : List Nat) : hasDup l = false ↔ l.Nodup := by
+  induction l with
+  | nil => simp [hasDup]
+  | cons x xs ih => simp [hasDup, List.nodup_cons, ih]
+
 /-- Steps that do not call any destination. -/
 structure Quiet (w w' : World) : Prop where
   frame : Frame w w'
